@@ -105,7 +105,7 @@ Eq(s, t) == Expand(s) = Expand(t)
 \*   "Blist"   every B(l, r) is replaced by the list [l, r]
 ApplyCb(cb, v) ==
     IF v[1] # "obj" THEN v
-    ELSE CASE cb = "id" -> v
+    ELSE CASE cb \in {"id", "Nest"} -> v    \* "Nest": the identity, computed by a transform (other callbacks) run inside the callback
            [] cb = "Acopy" -> v        \* every A(x) is replaced by a NEW, equal A(x): same value, other object
            [] cb = "AtoZ" -> IF v[2] = "A" THEN <<"obj", "Z", <<>>>> ELSE v
            [] cb = "Bswap" -> IF v[2] = "B" THEN <<"obj", "B", <<v[3][2], v[3][1]>>>> ELSE v
@@ -154,7 +154,7 @@ ExpandO(t0, path0) ==
 
 ApplyCbO(cb, v) ==
     IF v[1] # "obj" THEN v
-    ELSE CASE cb = "id" -> v
+    ELSE CASE cb \in {"id", "Nest"} -> v
            [] cb = "Acopy" -> IF v[2] = "A" THEN <<"obj", "A", v[3], <<"own">>>> ELSE v     \* the copy is tagged: metadata of its own
            [] cb = "AtoZ" -> IF v[2] = "A" THEN <<"obj", "Z", <<>>, v[4]>> ELSE v            \* fresh object: inherits the origin
            [] cb = "Bswap" -> IF v[2] = "B" THEN <<"obj", "B", <<v[3][2], v[3][1]>>, v[4]>> ELSE v
